@@ -65,6 +65,134 @@ def check_record(args):
     return out
 
 
+def fill_plan_binding(chk, tier):
+    """code -> spec for the plan of the fill: single straight wires in every segmentation the program
+       offers (equal, tapered from end 1 / 2 / both, with and without a maximum), free, grounded at
+       either end, vertical and sloping; the real masks (hook, commit 381133b) must equal the plan
+       spec/FillPlan.tla derives for the abstract object (segment length classes, grounded ends,
+       vertical); TLC checks the validity invariants of the plan on every object it is given."""
+    import os, json as _json
+    import numpy as np
+    from mininec.mininec import Mininec, Wire, ideal_ground
+    rnd = C.rng('c02-plan')
+    objs, models = [], []
+    nrep = 2 if tier == 'quick' else 12
+    for rep in range(nrep):
+        for ns in (1, 2, 3, 5, 6, 9):
+            for st in (0, 1, 2, 3):
+                for mx in (False, True):
+                    for gnd in ('free', 'g1', 'g2', 'elev'):
+                        for vertical in (True, False):
+                            if ns < 2 and st:
+                                continue
+                            z0 = 0.0 if gnd in ('g1', 'g2') else 2.0
+                            top = np.array([0.0, 0.0, 3.0 + rnd.random()]) if vertical else \
+                                np.array([1.0 + rnd.random(), 0.7, 3.0])
+                            a, b = np.array([0.0, 0.0, z0]), np.array([0.0, 0.0, z0]) + top
+                            if gnd == 'g2':
+                                a, b = b, a
+                            w = Wire(ns, *a, *b, 0.003)
+                            w.segtype = st
+                            if mx and st and ns >= 5:
+                                w.taper_max = 1.25 * w.wire_len / ns
+                            try:
+                                m = Mininec(10.0, [w], media=None if gnd == 'free' else [ideal_ground])
+                            except (AssertionError, ValueError):
+                                continue
+                            if len(m.pulses) == 0:
+                                continue
+                            m.compute_impedance_matrix()
+                            plan = getattr(m, '_verif_fill_plan', None)
+                            if plan is None:
+                                raise C.Machinery('fill plan hook not active')
+                            lens = [s_.seg_len for s_ in m.geo[0].segments]
+                            cls, lc = [], []
+                            for x in lens:
+                                for i_, y in enumerate(cls):
+                                    if x == y:
+                                        lc.append(i_ + 1)
+                                        break
+                                else:
+                                    cls.append(x)
+                                    lc.append(len(cls))
+                            pcs, pc = [], []
+                            for x in lens:
+                                for i_, y in enumerate(pcs):
+                                    if abs(x - y) <= 1e-9 * y:
+                                        pc.append(i_ + 1)
+                                        break
+                                else:
+                                    pcs.append(x)
+                                    pc.append(len(pcs))
+                            dcs, dc = [], []
+                            for s_ in m.geo[0].segments:
+                                for i_, y in enumerate(dcs):
+                                    if (np.array(s_.dirvec) == y).all():
+                                        dc.append(i_ + 1)
+                                        break
+                                else:
+                                    dcs.append(np.array(s_.dirvec))
+                                    dc.append(len(dcs))
+                            g = m.geo[0]
+                            d = g.segments[0].dirvec
+                            objs.append(dict(ns=ns, lc=lc, pc=pc, dc=dc, g1=bool(g.is_ground[0]), g2=bool(g.is_ground[1]),
+                                             vertical=bool(d[0] == 0 and d[1] == 0)))
+                            models.append((m, plan, dict(ns=ns, segtype=st, taper_max=mx, ground=gnd, vertical=vertical)))
+    wd = C.workdir('plan-c02')
+    tf = os.path.join(wd, 'objs.json')
+    _json.dump(objs, open(tf, 'w'))
+    cfg = os.path.join(wd, 'Plan.cfg')
+    open(cfg, 'w').write('CONSTANTS MaxSeg = 1\n MaxClass = 1\n EqualAcrossPulses = TRUE\n FromFile = TRUE\n'
+                         'INIT Init\nNEXT Next\nINVARIANT ShortcutOnlyIfUniform\nINVARIANT OriginIsComputed\n'
+                         'INVARIANT OriginIsCongruent\nINVARIANT CopiedSourceNotGrounded\nINVARIANT Dump\nCHECK_DEADLOCK FALSE\n')
+    res = C.tlc('FillPlan', os.path.relpath(cfg, C.SPEC), name='plan-run-c02', workers=4, env=dict(TRACE_FILE=tf))
+    if res.violated:
+        chk.violation(dict(kind='fill-plan-invalid', invariant=res.violated), dict(tail=res.out[-2500:]))
+        return
+    if not res.ok:
+        raise C.Machinery('TLC failed on FillPlan: ' + res.out[-1500:])
+    chk.add_tlc(res)
+    plans = {d_['tid']: d_ for d_ in res.printed()}
+    if len(plans) != len(objs):
+        raise C.Machinery('FillPlan returned %d plans for %d objects' % (len(plans), len(objs)))
+    for k, (m, plan, info) in enumerate(models):
+        sp = plans[k + 1]
+        n = sp['np']
+        chk.case(dict(o=objs[k]), n >= 2, sample=dict(object=objs[k], built_as=info))
+        chk.traces += 1
+        opt = np.array(plan['opt'])
+        exp_opt = np.array(sp['plan']['opt']).reshape(n, n)
+        bad = None
+        if opt.shape != (n, n) or not np.array_equal(opt, exp_opt):
+            bad = 'opt'
+        else:
+            # origin of every entry in the k = 1 pass, from the real masks
+            triu = np.triu(np.ones((n, n), dtype=bool), 1)
+            copy = triu & (opt > 0)
+            origin = {}
+            for i in range(n):
+                for j in range(n):
+                    origin[(i, j)] = (i, j)
+            for src, dst in zip(plan['cpy_src'], plan['cpy_dst']):
+                for i, j in zip(*np.where(dst)):
+                    origin[(int(i), int(j))] = (int(src[0]), int(src[1]))
+            for i, j in zip(*np.where(copy)):
+                origin[(int(j), int(i))] = origin[(int(i), int(j))]
+            exp_or = sp['plan']['origin']
+            for i in range(n):
+                for j in range(n):
+                    e = exp_or[i][j]
+                    if origin[(i, j)] != (e[0] - 1, e[1] - 1):
+                        bad = 'origin'
+            comp = np.array(sp['plan']['computed']).reshape(n, n)
+            real_comp = np.logical_not(copy.T) & plan['excp']
+            if bad is None and not np.array_equal(comp, real_comp):
+                bad = 'computed'
+        if bad:
+            chk.violation(dict(kind='fill-plan-differs-from-spec', what=bad), dict(object=objs[k], built_as=info))
+    chk.cov['fill_plans_validated'] = len(models)
+
+
 def jobs(chk, tier):
     for r, g in L.long_records(chk):
         for k in range(6 if tier == 'quick' else 40):
@@ -81,6 +209,7 @@ def run(tier):
         'TLC 1.8 on spec/Topology.tla supplies the pulse table; harness/lattice.py evaluates the MININEC-3 formulation on it with the surrogate kernel and seeded lattice coordinates',
         'Mininec.psi is replaced in the harness process only (no change to the repository); the replacement honours the calling contract of psi (length = |scale| * seg_len of the half selected by the sign of scale)',
         'radius >= 1e-4 wavelength, so every self term goes through psi (the closed-form small-radius branch is outside this check)']
+    fill_plan_binding(chk, tier)
     L.install_surrogate()
     for job, o in C.parallel_imap(check_record, jobs(chk, tier), chunksize=16):
         r, g = job[0], job[1]
